@@ -54,6 +54,9 @@ class ParallelGate(raw_types.Gate):
     def num_qubits(self) -> int:
         return self.sub_gate.num_qubits() * self._num_copies
 
+    def _qid_shape_(self) -> tuple[int, ...]:
+        return protocols.qid_shape(self.sub_gate) * self._num_copies
+
     @property
     def sub_gate(self) -> cirq.Gate:
         return self._sub_gate
